@@ -231,6 +231,55 @@ theorem fixdate_field_syntax (sec : Int) (ns : Nat) (h1 : -31536000 ≤ sec) (h2
   refine ⟨Time.toUpperAscii (Time.formatToks (Time.civilOf sec ns) Time.fixToks), ?_, Spec.fixdate_syntax _ hv hns'⟩
   simp only [dateString, lit, Option.bind_some, Time.format, Time.fix_layout, hy, if_false, hasc, if_true]
 
+theorem mapM_map_ok {α β γ : Type} (g : β → Outcome γ) (mk : α → β) (h : α → γ) (l : List α)
+    (hp : ∀ a ∈ l, g (mk a) = .ok (h a)) : (l.map mk).mapM g = .ok (l.map h) := by
+  induction l with
+  | nil => rfl
+  | cons a r ih =>
+    simp only [List.map_cons, List.mapM_cons, bind, Outcome.bind, pure, hp a (List.mem_cons_self),
+      ih (fun x hx => hp x (List.mem_cons_of_mem _ hx))]
+
+/-- the value of an intermediates element: (time, distance) items -/
+def interItems (its : List (Nat × UInt64)) : List V :=
+  its.map fun it => V.struct [.int (it.1 : Int), .flt it.2]
+
+def interLineOf (it : Nat × UInt64) : List Char :=
+  Spec.interLine (it.1 / 60000000000) (it.1 % 60000000000 / 1000000000) (it.1 % 1000000000 / 10000000) it.2
+
+/-- every non-empty list of intermediates (non-negative times, finite distances) is written one
+    `MM:SS.cc,d.d` per indented line followed by the closing indentation -/
+theorem intermediates_field_syntax (its : List (Nat × UInt64)) (hne : its ≠ [])
+    (hfin : ∀ it ∈ its, ∃ f, Dec.classify it.2 = .finite f) :
+    ∃ t, customText Spec.schema "Intermediates" (.list (interItems its)) = .ok t ∧ Spec.isIntermediates t = true := by
+  have l1 : Spec.schema.lit "Intermediates.MarshalXML" 1 = some "\n\t\t\t%s,%.1f" := by decide +kernel
+  have l2 : Spec.schema.lit "Intermediates.MarshalXML" 2 = some "\n\t\t" := by decide +kernel
+  have fm : Fmt.parseFormat "\n\t\t\t%s,%.1f".toList =
+      some [Fmt.Item.lit '\n', .lit '\t', .lit '\t', .lit '\t', .s, .lit ',', .f 1] := by decide
+  have hempty : (interItems its).isEmpty = false := by
+    cases its with
+    | nil => exact absurd rfl hne
+    | cons _ _ => rfl
+  refine ⟨Spec.interText (its.map interLineOf), ?_, ?_⟩
+  · simp only [customText, l1, l2, ofOpt, bind, Outcome.bind, hempty, Bool.false_eq_true, if_false]
+    unfold interItems
+    rw [mapM_map_ok _ _ (fun it => '\n' :: Spec.tab3 (interLineOf it))]
+    · simp only [Spec.interText, List.map_map, Function.comp_def]
+      have : "\n\t\t".toList = ['\n', '\t', '\t'] := by decide
+      rw [this]
+    · intro it _
+      simp only [Spec.durationString_nonneg, Fmt.sprintf, fm, Option.bind_some, Fmt.sprintfItems, Option.map_some,
+        List.append_nil]
+      simp [interLineOf, Spec.interLine, Spec.tab3]
+  · apply Spec.intermediates_syntax
+    · cases its with
+      | nil => exact absurd rfl hne
+      | cons _ _ => simp
+    · intro l hl
+      obtain ⟨it, hit, e⟩ := List.mem_map.mp hl
+      obtain ⟨f, hf⟩ := hfin it hit
+      rw [← e]
+      exact Spec.interLine_good _ _ _ _ f hf (by omega) (by omega)
+
 /-- non-vacuity / regression witness: the text that exposed `&quote;` -/
 example : unescape (replaceAll (pairsOf Spec.schema.replacer) (goEscape ['a', '"', 'b'])) = some ['a', '"', 'b'] := by
   decide
